@@ -177,10 +177,9 @@ Definition wf (bnd : Z) (d : data) : bool :=
   forallb (wf_database bnd) (d_dbs d) && forallb wf_user (d_users d) && Bool.eqb (d_admin d) (has_admin (d_users d)).
 
 (* command arguments have their Go types (what decoding the protobuf command guarantees) and
-   - shard-group durations do not exceed [bnd];
-   - a shard group is not created for a timestamp closer than [bnd] to the start of the int64
-     nanosecond range (time.Truncate would put StartTime before 1677-09-21T00:12:43.145224192Z,
-     which UnixNano cannot represent) *)
+   shard-group durations do not exceed [bnd] (any bound up to MaxInt64, i.e. no restriction).
+   Since fix 78b5206 CreateShardGroup clamps StartTime to the int64 nanosecond range, so every
+   int64 timestamp is admitted. *)
 Definition sgd_ok (bnd sgd : Z) : bool := (sgd <=? bnd)%Z.
 Definition cmd_ok (bnd : Z) (c : cmd) : bool :=
   match c with
@@ -189,7 +188,7 @@ Definition cmd_ok (bnd : Z) (c : cmd) : bool :=
   | CUpdateRetentionPolicy _ _ _ _ rep sgd _ =>
       match rep with Some v => v <? 4294967296 | None => true end &&
       match sgd with Some v => sgd_ok bnd v | None => true end
-  | CCreateShardGroup _ _ t => (min_i64 + bnd <=? t)%Z && (t <=? max_i64)%Z
+  | CCreateShardGroup _ _ t => in_i64 t
   | CTruncateShardGroups t => in_i64 t
   | CSetPrivilege _ _ p => in_i32 p
   | _ => true
@@ -452,6 +451,29 @@ Fixpoint run_events (auto : bool) (d : data) (evs : list hevent) : data :=
   | [] => d
   | HApply e ex :: t => run_events auto (fst (apply auto ex d (e_idx e) (e_term e) (e_cmd e))) t
   | _ :: t => run_events auto d t
+  end.
+
+(* ---------- store.remove: the only place where a store wipes itself on purpose ---------- *)
+
+(* Raft membership is outside RaftLog; this is just the decision store.remove takes after the
+   DeleteMetaNodeCommand has been applied: the node executing it (the leader) calls reset()
+   - close raft, delete its directory, Data{Index: 1} - iff it counts at most one node,
+   otherwise it removes the peer from the raft configuration.  [by_peers]: the count is
+   len(s.peers()), the raft configuration that still contains the node being removed (the
+   code; re-read from the source: c07_remove_resets_by_raft_peers), or the meta-node list of
+   the metadata, which the command has already shrunk. *)
+Record mstate := MS { ms_self : string; ms_peers : list string; ms_data : data }.
+
+Definition remove_resets (by_peers : bool) (peers : list string) (d_after : data) : bool :=
+  ((if by_peers then List.length peers else List.length (d_meta d_after)) <=? 1)%nat.
+
+Definition remove_step (by_peers : bool) (st : mstate) (id : N) (addr : string) : mstate :=
+  match delete_meta_node (ms_data st) id with
+  | Er _ => st
+  | Ok d' =>
+      if remove_resets by_peers (ms_peers st) d'
+      then MS (ms_self st) [] init_data
+      else MS (ms_self st) (filter (fun p => negb (String.eqb p addr)) (ms_peers st)) d'
   end.
 
 (* ---------- validateCommand and the head of storeFSM.Apply ---------- *)
